@@ -66,6 +66,12 @@ Theorem C12_reload_any_bytes : forall data t,
   end.
 Proof. exact (ml_reload_spec (fun _ _ => None)). Qed.
 
+(** a zeroed buffer of exactly the advertised size takes the list; one byte less is refused and left untouched *)
+Theorem C12_exact_size : forall t ms, wf_tag t -> Forall wf_extra ms -> len ms < 100000000 ->
+  let n := N.to_nat (12 + (4 + 35 * len ms)) in
+  ml_init (zeros n) t ms = (render n [(t, lv_enc ms)], Ok tt) /\
+  exists e, ml_init (zeros (n - 1)) t ms = (zeros (n - 1), Err e).
+Proof. exact exact_size. Qed.
 Example C12_nonvacuous :
   let t := [x11;x11;x11;x11;x11;x11;x11;x11] in
   let m := {| e_disc := x00; e_cfg := zeros 32; e_signer := x01; e_writable := x00 |} in
